@@ -31,6 +31,8 @@ FIXED = [
     ("C09", "5612c22", "`into html` copied values into <td> without escaping < > & (names `<x>`, `a&b` broke the markup or changed value)", ["html-escaping"]),
     ("C09", "a0cf93e", "grouped results were written without row separators: `into json` printed `[{...}{...}]`", ["grouped-separators"]),
     ("C09", "d6b99f4", "a CSV row larger than the csv writer's 8 KiB buffer containing multi-byte characters was truncated or dropped (WritableBuffer rejected chunks ending inside a UTF-8 sequence)", ["csv-long-multibyte-row"]),
+    ("C12", "21e45fe", "glob/LIKE translation left + { } | and backslash unescaped (`name = 'a+b*'` matched aab.txt, not a+b.txt; `{` made the pattern invalid) and LIKE treated `?` as an optional-character wildcard", ["glob-metachars", "like-metachars"]),
+    ("C12", "5c12388", "the compiled-pattern cache was keyed by pattern text only: the same text under `=` and `like`/`=~` in one query reused the first compilation", ["cache-shared-across-operators"]),
 ]
 
 OPEN = [
